@@ -1,9 +1,21 @@
 //! C14: the real interval functions (`tower_resilience_retry::backoff`) and every
 //! `ReconnectPolicy` built on them, called directly with arbitrary attempt numbers.
 //!
-//! `probe backoff kind=exp|rand|fixed|retry_policy|policy_exp|policy_rand|policy_fixed|policy_none
+//! `probe backoff kind=exp|rand|fixed|retry_policy|policy_exp|policy_rand|policy_fixed|policy_none|…
 //!        initial_ns=<n> mult_num=<p> mult_den=<q> cap_ns=<n>|none rf_pct=<0..100> attempt=<a>`
 //! (keys may also be given once in the case header; keys of the operation win).
+//!
+//! `chain=<s1,s2,…>` (header or operation) is the builder chain itself, applied left to right to
+//! `ExponentialBackoff::new(initial)` / `ExponentialRandomBackoff::new(initial, rf)` through the public
+//! setters: `m<p>:<q>` = `.multiplier(p/q)`, `c<ns>` = `.max_interval(ns)`; any order, any repetition;
+//! unknown items are skipped, `chain=-` = no setter at all (multiplier 2.0, no maximum). With `chain=` the keys
+//! `mult_num mult_den cap_ns` are not consulted; without it they mean `.multiplier(m)` then, if there is a
+//! cap, `.max_interval(cap)` (old op files unchanged). The chain-built object is reached through
+//! `kind=exp|rand` (directly), `retry_policy|retry_policy_rand` (`RetryPolicy::new(Arc<…>)::next_backoff`),
+//! `policy_exp_of|policy_rand_of` (`ReconnectPolicy::Exponential(b)` / `ExponentialRandom(b)`),
+//! `policy_custom` (`ReconnectPolicy::Custom(Arc<ExponentialBackoff>)`). `policy_exp|policy_rand` are the
+//! two-argument constructors (`ReconnectPolicy::exponential(initial, cap)`, their own fixed chain).
+//! `clone=1`: the finished object is cloned, the original dropped, and the clone is asked.
 //! The call runs inside `catch_unwind`; the log line is `probe backoff attempt=<a> = <ns>|none|panic`.
 //! The value is float-computed, so it is also handed to the model as the observed choice `@v=…`:
 //! the model checks it against the envelope around its exact-arithmetic `ideal` (DESIGN §8 C14).
@@ -34,41 +46,101 @@ fn u128_of(kv: &Kv, k: &str, d: u128) -> u128 {
     kv.get(k).and_then(|v| v.parse().ok()).unwrap_or(d)
 }
 
+enum Set {
+    Mult(f64),
+    Cap(Duration),
+}
+
+fn parse_chain(s: &str) -> Vec<Set> {
+    s.split(',')
+        .filter_map(|w| {
+            if let Some(r) = w.strip_prefix('m') {
+                let (p, q) = r.split_once(':')?;
+                Some(Set::Mult(p.parse::<u64>().ok()? as f64 / q.parse::<u64>().ok()? as f64))
+            } else if let Some(r) = w.strip_prefix('c') {
+                Some(Set::Cap(dur(r.parse::<u128>().ok()?)))
+            } else {
+                None
+            }
+        })
+        .collect()
+}
+
+/// the setters to apply, in order
+fn chain_of(kv: &Kv) -> Vec<Set> {
+    if let Some(ch) = kv.get("chain") {
+        return parse_chain(ch);
+    }
+    let mut v = vec![Set::Mult(kv.u64("mult_num", 2) as f64 / kv.u64("mult_den", 1) as f64)];
+    if let Some(c) = kv.get("cap_ns").and_then(|v| v.parse::<u128>().ok()) {
+        v.push(Set::Cap(dur(c)));
+    }
+    v
+}
+
+fn build_exp(initial: Duration, chain: &[Set]) -> ExponentialBackoff {
+    let mut b = ExponentialBackoff::new(initial);
+    for s in chain {
+        b = match s {
+            Set::Mult(m) => b.multiplier(*m),
+            Set::Cap(c) => b.max_interval(*c),
+        };
+    }
+    b
+}
+
+fn build_rand(initial: Duration, rf: f64, chain: &[Set]) -> ExponentialRandomBackoff {
+    let mut b = ExponentialRandomBackoff::new(initial, rf);
+    for s in chain {
+        b = match s {
+            Set::Mult(m) => b.multiplier(*m),
+            Set::Cap(c) => b.max_interval(*c),
+        };
+    }
+    b
+}
+
+/// `clone=1`: hand on a clone, drop the original
+fn via<T: Clone>(cl: bool, x: T) -> T {
+    if cl {
+        let y = x.clone();
+        drop(x);
+        y
+    } else {
+        x
+    }
+}
+
 fn compute(kv: &Kv) -> Option<Duration> {
     let initial = dur(u128_of(kv, "initial_ns", 0));
-    let mult = kv.u64("mult_num", 2) as f64 / kv.u64("mult_den", 1) as f64;
     let cap = kv.get("cap_ns").and_then(|v| v.parse::<u128>().ok()).map(dur);
     let rf = kv.u64("rf_pct", 50) as f64 / 100.0;
     let attempt = kv.get("attempt").and_then(|v| v.parse::<usize>().ok()).unwrap_or(0);
+    let cl = kv.u64("clone", 0) != 0;
+    let chain = chain_of(kv);
     match kv.str("kind", "exp").as_str() {
-        "policy_none" => ReconnectPolicy::none().delay_for_attempt(attempt),
-        "fixed" => Some(FixedInterval::new(initial).next_interval(attempt)),
-        "policy_fixed" => ReconnectPolicy::fixed(initial).delay_for_attempt(attempt),
-        "rand" => {
-            let mut b = ExponentialRandomBackoff::new(initial, rf).multiplier(mult);
-            if let Some(c) = cap {
-                b = b.max_interval(c);
-            }
-            Some(b.next_interval(attempt))
-        }
+        "policy_none" => via(cl, ReconnectPolicy::none()).delay_for_attempt(attempt),
+        "fixed" => Some(via(cl, FixedInterval::new(initial)).next_interval(attempt)),
+        "policy_fixed" => via(cl, ReconnectPolicy::fixed(initial)).delay_for_attempt(attempt),
+        "rand" => Some(via(cl, build_rand(initial, rf, &chain)).next_interval(attempt)),
         "policy_rand" => {
-            ReconnectPolicy::exponential_random(initial, cap.unwrap_or(Duration::MAX), rf).delay_for_attempt(attempt)
+            via(cl, ReconnectPolicy::exponential_random(initial, cap.unwrap_or(Duration::MAX), rf)).delay_for_attempt(attempt)
         }
-        "policy_exp" => ReconnectPolicy::exponential(initial, cap.unwrap_or(Duration::MAX)).delay_for_attempt(attempt),
-        "retry_policy" => {
-            let mut b = ExponentialBackoff::new(initial).multiplier(mult);
-            if let Some(c) = cap {
-                b = b.max_interval(c);
-            }
-            Some(RetryPolicy::<IErr>::new(Arc::new(b)).next_backoff(attempt))
+        "policy_exp" => via(cl, ReconnectPolicy::exponential(initial, cap.unwrap_or(Duration::MAX))).delay_for_attempt(attempt),
+        "policy_exp_of" => {
+            via(cl, ReconnectPolicy::Exponential(via(cl, build_exp(initial, &chain)))).delay_for_attempt(attempt)
         }
-        _ => {
-            let mut b = ExponentialBackoff::new(initial).multiplier(mult);
-            if let Some(c) = cap {
-                b = b.max_interval(c);
-            }
-            Some(b.next_interval(attempt))
+        "policy_rand_of" => {
+            via(cl, ReconnectPolicy::ExponentialRandom(via(cl, build_rand(initial, rf, &chain)))).delay_for_attempt(attempt)
         }
+        "policy_custom" => {
+            via(cl, ReconnectPolicy::Custom(Arc::new(build_exp(initial, &chain)))).delay_for_attempt(attempt)
+        }
+        "retry_policy" => Some(RetryPolicy::<IErr>::new(Arc::new(via(cl, build_exp(initial, &chain)))).next_backoff(attempt)),
+        "retry_policy_rand" => {
+            Some(RetryPolicy::<IErr>::new(Arc::new(via(cl, build_rand(initial, rf, &chain)))).next_backoff(attempt))
+        }
+        _ => Some(via(cl, build_exp(initial, &chain)).next_interval(attempt)),
     }
 }
 
